@@ -61,6 +61,7 @@ def check(ctx):
     for i in range(1, 10): names.append(('h_vec_%d' % i, {'published test vector': i}, [6, 12]))
     hp = ctx.path('h_c18.c'); open(hp, 'w').write('\n'.join(H) + '\n')
     D = ['S_USE_BITBOARD_ORACLE']
+    D = list(D) + ['NPMAX=12']     # the thorough tier uses material of up to 12 pieces
     gb = ctx.gotocc('c18', [c, hp], D + ['STRUCT']); gbw = ctx.gotocc('c18w', [c, hp], D + ['STRUCT', 'WITNESS'])
     gv = ctx.gotocc('c18v', [cv, hp], D + ['VECTORS']); gvw = ctx.gotocc('c18vw', [cv, hp], D + ['VECTORS', 'WITNESS'])
     qs, ws = [], []
